@@ -150,6 +150,8 @@ pub struct EngineCfg {
     pub fair: u64,
     /// a store / read-modify-write is followed by a second scheduling point
     pub post_points: bool,
+    /// offer a spurious return of `std::thread::park` (legal for std) as a costed alternative
+    pub spurious: bool,
 }
 
 impl Default for EngineCfg {
@@ -162,6 +164,7 @@ impl Default for EngineCfg {
             desc: false,
             fair: 50,
             post_points: false,
+            spurious: false,
         }
     }
 }
@@ -199,6 +202,7 @@ pub struct State {
     site_names: HashMap<u32, (&'static str, u32)>,
     panics: Vec<String>,
     t2_used: bool,
+    spurious_used: bool,
 }
 
 pub struct Engine {
@@ -270,6 +274,7 @@ impl Engine {
                 site_names: HashMap::new(),
                 panics: Vec::new(),
                 t2_used: false,
+                spurious_used: false,
             }),
             shared,
         }));
@@ -749,12 +754,19 @@ impl Engine {
             } else {
                 None
             };
-            if !st.branching || (en.len() == 1 && t2_dl.is_none()) {
+            let any_spur = st.cfg.spurious && st.branching && (0..n).any(|t| !st.th[t].finished && !st.th[t].token && matches!(st.th[t].blocked, Some(Cond::Park(None))));
+            if !st.branching || (en.len() == 1 && t2_dl.is_none() && !any_spur) {
                 return (st, default);
             }
             let mut alts: Vec<usize> = vec![default];
             alts.extend(en.iter().cloned().filter(|&t| t != default));
-            let nalts = alts.len() + t2_dl.is_some() as usize;
+            // threads in a plain thread park (not the timed park of the timer thread) that may wake spuriously
+            let spur: Vec<usize> = if st.cfg.spurious {
+                (0..n).filter(|&t| !st.th[t].finished && !st.th[t].token && matches!(st.th[t].blocked, Some(Cond::Park(None)))).collect()
+            } else {
+                vec![]
+            };
+            let nalts = alts.len() + t2_dl.is_some() as usize + spur.len();
             let i = st.nchoice;
             if i >= MAX_CHOICES {
                 self.finish_locked(st, ST_TOOMANY, "too_many_choice_points", "too many choice points in one execution");
@@ -782,11 +794,17 @@ impl Engine {
             if pick != 0 && st.dev_pos == st.devs.len() && st.expect_fp != 0 && st.fp_roll != st.expect_fp {
                 self.finish_locked(st, ST_NONDET, "nondeterminism", "replay divergence: fingerprint of the replayed prefix differs from the recorded one");
             }
-            if pick == alts.len() {
+            if t2_dl.is_some() && pick == alts.len() {
                 // T2: advance the clock although threads are runnable
                 st.now = t2_dl.unwrap();
                 st.t2_used = true;
                 continue;
+            }
+            if pick >= alts.len() {
+                // spurious wake-up of a parked thread: it runs next, without a token
+                let t = spur[pick - alts.len() - t2_dl.is_some() as usize];
+                st.spurious_used = true;
+                return (st, t);
             }
             return (st, alts[pick]);
         }
